@@ -111,6 +111,19 @@ func sigStr(r *core.Rand) string {
 }
 
 // commandStepsFromDoc parses a generated document and returns its command steps (all depths).
+// corpusOrGenerated: the regression corpus first (each document `times` times), then generated pipelines.
+func (c *ctx) corpusOrGenerated(i, times int, r *core.Rand, groupDepth, groupBias int) (*pipeline.Pipeline, []byte) {
+	if d := c.corpusAt(i, times); d != nil {
+		src := []byte(d.Document)
+		p, perr := pipeline.Parse(bytes.NewReader(src))
+		if p == nil || (perr != nil && !isWarning(perr)) {
+			return nil, src
+		}
+		return p, src
+	}
+	return genParsedPipelineBias(r, c.res.Hist, groupDepth, groupBias)
+}
+
 func commandStepsOf(ss pipeline.Steps) []*pipeline.CommandStep {
 	var out []*pipeline.CommandStep
 	for _, s := range ss {
